@@ -206,6 +206,19 @@ theorem npres_pRetract (E : List Id) (D : List Nat) (id : Id) (x : Option Nat) :
       | exact h1
       | exact markChanged_ninv h1 hy rfl
 
+theorem npres_pMergeInto (E : List Id) (D : List Nat) (a b : Id) : NPres E D (pMergeInto a b) := by
+  intro s tx e h
+  unfold pMergeInto
+  split
+  · exact h.same
+  · rename_i tx1 y hl
+    obtain ⟨h1, hy⟩ := load_ninv h hl
+    repeat' split
+    all_goals first
+      | exact h1.same
+      | exact h1
+      | exact markChanged_ninv h1 hy rfl
+
 theorem npres_pCheck2 (E : List Id) (D : List Nat) (a b : Id) (pred : Staged → Staged → Option Err) :
     NPres E D (pCheck2 a b pred) := by
   intro s tx e h
@@ -307,6 +320,7 @@ macro "npres_chain" h:ident : tactic => `(tactic|
     | exact npres_pPurge _ _ _ _ _ _ _ $h
     | exact npres_pAssign _ _ _ _ _ _ _ $h
     | exact npres_pEdit _ _ _ _ _ _ _ _ _ _ _ $h
+    | exact npres_pMergeInto _ _ _ _ _ _ _ $h
     | exact npres_pCheck2 _ _ _ _ _ _ _ _ $h
     | exact npres_pExpectStatus _ _ _ _ _ _ _ $h
     | exact npres_pFail _ _ _ _ _ _ $h
@@ -316,6 +330,7 @@ macro "npres_chain" h:ident : tactic => `(tactic|
     | exact npres_pBind _ _ _ _
     | exact npres_pAssign _ _ _ _
     | exact npres_pEdit _ _ _ _ _ _ _ _
+    | exact npres_pMergeInto _ _ _ _
     | exact npres_pCheck2 _ _ _ _ _
     | exact npres_pExpectStatus _ _ _ _
     | exact npres_pStageNew _ _ _ _ (by simp)
@@ -371,6 +386,7 @@ theorem applyClause_ninv (c : Clause) (D : List Nat) (hD : ∀ n, declares c = s
   | correct t b => simp only [applyClause]; (repeat' split) <;> npres_chain h
   | transition t to expect => simp only [applyClause]; (repeat' split) <;> npres_chain h
   | setRetention t v expect => simp only [applyClause]; (repeat' split) <;> npres_chain h
+  | merge a b expect => simp only [applyClause]; (repeat' split) <;> npres_chain h
 
 theorem declare_ok {s : Store} {tx : Tx} {n : Nat} {k : Kind} (hg : hGet tx.handles n = none) :
     declare s tx n k =
@@ -463,6 +479,7 @@ theorem declareClause_declared (c : Clause) (s : Store) (tx : Tx) :
   | correct => exact ⟨fun _ hm => hm, fun _ n hn => by cases hn⟩
   | transition => exact ⟨fun _ hm => hm, fun _ n hn => by cases hn⟩
   | setRetention => exact ⟨fun _ hm => hm, fun _ n hn => by cases hn⟩
+  | merge => exact ⟨fun _ hm => hm, fun _ n hn => by cases hn⟩
 
 theorem declareAll_mono (cs : List Clause) (p : PS) : ∀ m ∈ p.tx.declared, m ∈ (declareAll cs p).tx.declared := by
   unfold Tx.declareAll
